@@ -40,8 +40,15 @@ subprocess correspondence of harness/c17.py.
 import ast
 import os
 
+try:
+    from . import c17_rngflow as rngflow
+except ImportError:      # run as a script
+    import c17_rngflow as rngflow
+
 SEED_NAMES = ("seed", "rng")
 EXCLUDE_DIRS = ("experimental",)
+# iterators / calls that yield the results of pool tasks in the order the workers finished
+SCHED_ORDERED = {"as_completed", "imap_unordered", "map_unordered", "iter_unordered"}
 # modules whose seeded callables are not determinism APIs in the sense of C17 (colour hashing)
 NON_API_MODULES = ("plot", "schematic")
 RANDOM_OK = {"Random", "SystemRandom"}
@@ -214,7 +221,7 @@ class Extractor:
                 elif any(b in rel for b in info["bases"]):
                     rel.add(c)
                     changed = True
-        return rel
+        return sorted(rel)       # (a list: the traversal order must not depend on the harness's own hash seed)
 
     # ---------------------------------------------------------------- class attribute facts
     def _class_attr_info(self):
@@ -376,7 +383,7 @@ class Extractor:
                 if c not in out and any(b in out for b in info["bases"]):
                     out.add(c)
                     changed = True
-        return out
+        return sorted(out)
 
     def _ctor_class(self, e, fn, depth=0):
         """class evidently produced by expression `e` (constructor call, classmethod on a class,
@@ -507,8 +514,31 @@ class Extractor:
                             t.slice.value in SEED_NAMES and self._mentions(node.value, derived, seeded_attrs):
                         seed_dict = True
 
-        facts = {"global_any": [], "global_U": [], "hash": [], "edges": []}
+        facts = {"global_any": [], "global_U": [], "global_S": [], "hash": [], "sched": [], "edges": []}
         imports = self.mod_imports[fn.module]
+
+        # ---- generator-variable data flow (harness/c17_rngflow.py; Lean: Model/RngFlow.lean) ----
+        # the skeleton of the function entered WITH a seed; a sink that may receive None / the global
+        # module turns the corresponding edge into an unseeded one (or taints the row itself)
+        sk = rngflow.skeleton(fn.node, fn.seed_param, sorted(seeded_attrs), fn.name == "__init__", imports)
+        bad = rngflow.bad_sinks(sk)
+        facts["skeleton"] = sk
+        facts["bad_sinks"] = bad
+        bad_nodes = set()
+        by_k = {x["k"]: x for x in sk["sinks"]}
+        for k in bad:
+            x = by_k.get(k)
+            if x is None:
+                facts["global_S"].append(("a loop invariant of the generator variables could not be established", 0))
+                continue
+            if x["kind"] in ("kw", "pos"):
+                bad_nodes.add(id(x["node"]))
+            elif x["kind"] == "dict":
+                bad_nodes.add("dict")
+            facts["global_S"].append((f"data flow, sink `{x['kind']}`: the value used as seed / generator may be "
+                                      f"None or the global generator on some path", x["line"]))
+        if "dict" in bad_nodes:
+            seed_dict = False
 
         def is_random_module(e):
             return isinstance(e, ast.Name) and imports.get(e.id) == ("mod", "random")
@@ -525,6 +555,9 @@ class Extractor:
             """classify what the call passes as the callee's seed parameter:
             'derived' | 'none' | 'absent' | 'other' | 'splat'"""
             names = SEED_NAMES
+            if id(call) in bad_nodes:
+                # data flow: on some path the value passed as the seed is None / not derived
+                return "none"
 
             def cls_of(e):
                 if self._mentions(e, derived, set()):
@@ -662,7 +695,7 @@ class Extractor:
                     if not b:
                         continue
                     if b[0] == "param":
-                        for fname in self.inst_args.get(c, {}).get(b[1], ()):
+                        for fname in sorted(self.inst_args.get(c, {}).get(b[1], ())):
                             out.extend(self.fns[q2] for q2 in self.by_name.get(fname, []))
                     else:
                         for g in self.by_name.get(b[1], []):
@@ -685,12 +718,14 @@ class Extractor:
                 # ---- primitives: get_rng / random.* / np.random.* ---------------------------
                 if isinstance(f, ast.Name) and f.id == "get_rng" or \
                         (isinstance(f, ast.Attribute) and f.attr == "get_rng"):
+                    # (entered WITH a seed, whether this call is reached with None is decided by the
+                    # data flow above -- every get_rng call is a sink of the skeleton)
                     if not node.args and not node.keywords:
-                        facts["global_any"].append(("get_rng()", node.lineno))
+                        facts["global_U"].append(("get_rng()", node.lineno))
                     else:
                         a = node.args[0] if node.args else node.keywords[0].value
                         if isinstance(a, ast.Constant) and a.value is None:
-                            facts["global_any"].append(("get_rng(None)", node.lineno))
+                            facts["global_U"].append(("get_rng(None)", node.lineno))
                         elif self._mentions(a, derived, seeded_attrs):
                             facts["global_U"].append(("get_rng(seed) with seed=None", node.lineno))
                     continue
@@ -719,6 +754,14 @@ class Extractor:
                     for a in node.args:
                         if self._is_set_expr(a, set_names, set_attrs) and not self._int_set(a, intset_names):
                             facts["hash"].append((f"{f.id}(<set>)", node.lineno))
+                # max / min / sorted WITH a key over a set: ties between keys are broken by the
+                # iteration order (and a key function that draws from a generator pairs draws with
+                # elements in that order)
+                if isinstance(f, ast.Name) and f.id in ("max", "min", "sorted") and \
+                        any(kw.arg == "key" for kw in node.keywords):
+                    for a in node.args[:1]:
+                        if self._is_set_expr(a, set_names, set_attrs) and not self._int_set(a, intset_names):
+                            facts["hash"].append((f"{f.id}(<set>, key=..)", node.lineno))
                 if isinstance(f, ast.Attribute) and f.attr == "join" and node.args and \
                         self._is_set_expr(node.args[0], set_names, set_attrs):
                     facts["hash"].append(("join(<set>)", node.lineno))
@@ -728,6 +771,11 @@ class Extractor:
                 if isinstance(f, ast.Attribute) and f.attr == "fromkeys" and node.args and \
                         self._is_set_expr(node.args[0], set_names, set_attrs):
                     facts["hash"].append(("dict.fromkeys(<set>)", node.lineno))
+                # ---- results of a pool consumed in completion order ------------------------
+                sname = f.id if isinstance(f, ast.Name) else (f.attr if isinstance(f, ast.Attribute) else None)
+                if sname in SCHED_ORDERED or (sname == "wait" and self._is_futures_wait(f, imports)):
+                    if self._order_consumed(fn.node, node):
+                        facts["sched"].append((f"{sname}(..) consumed in completion order", node.lineno))
                 # ---- calls into cotengra ---------------------------------------------------
                 targets = []
                 if isinstance(f, ast.Name):
@@ -785,6 +833,36 @@ class Extractor:
         facts["seed_param"] = fn.seed_param
         facts["transparent"] = bool(fn.varkw)
         return facts
+
+    @staticmethod
+    def _is_futures_wait(f, imports):
+        """`wait` of concurrent.futures / asyncio (returns *sets* of futures / completion order)"""
+        if isinstance(f, ast.Name):
+            imp = imports.get(f.id)
+            return bool(imp) and imp[0] == "name" and imp[1][0] in ("concurrent.futures", "asyncio", "distributed")
+        if isinstance(f, ast.Attribute):
+            base = f.value
+            nm = base.attr if isinstance(base, ast.Attribute) else (base.id if isinstance(base, ast.Name) else "")
+            return nm in ("futures", "concurrent", "asyncio", "cf", "distributed")
+        return False
+
+    @staticmethod
+    def _order_consumed(fn_node, call):
+        """is the value of `call` (an iterator over futures in completion order) consumed in a way
+        that exposes the order?  Not when it only drives a loop whose variable is never used (a
+        progress bar) or when it is a bare expression statement."""
+        parent = {}
+        for n in ast.walk(fn_node):
+            for ch in ast.iter_child_nodes(n):
+                parent[id(ch)] = n
+        p = parent.get(id(call))
+        if isinstance(p, ast.Expr):
+            return False
+        if isinstance(p, (ast.For, ast.AsyncFor)) and p.iter is call:
+            names = {n.id for n in ast.walk(p.target) if isinstance(n, ast.Name)}
+            used = {n.id for st in p.body for n in ast.walk(st) if isinstance(n, ast.Name)}
+            return bool(names & used)
+        return True
 
     def _int_set(self, e, intset_names):
         return self._evidently_int_elems(e) or (isinstance(e, ast.Name) and e.id in intset_names)
@@ -1034,7 +1112,8 @@ def build(repo):
             elif not ok:
                 rg = True
                 why.append("get_rng has an unrecognised shape: cannot be treated as a primitive")
-            nodes[key] = {"q": q, "mode": mode, "calls": [], "rdGlobal": rg, "rdHash": False, "why": why}
+            nodes[key] = {"q": q, "mode": mode, "calls": [], "rdGlobal": rg, "rdHash": False, "rdSched": False,
+                          "why": why}
             return key
         for what, line in f["global_any"]:
             rg = True
@@ -1043,6 +1122,14 @@ def build(repo):
             for what, line in f["global_U"]:
                 rg = True
                 why.append(f"{what} at line {line}")
+        else:
+            for what, line in f["global_S"]:
+                rg = True
+                why.append(f"{what} at line {line}")
+        rs = False
+        for what, line in f["sched"]:
+            rs = True
+            why.append(f"{what} at line {line}")
         for what, line in f["hash"]:
             if (q, what) in REVIEWED_INT_SETS:
                 continue
@@ -1065,7 +1152,7 @@ def build(repo):
                 if ref and h == "absent":
                     cm = mode
             calls.append((callee_q, cm))
-        nodes[key] = {"q": q, "mode": mode, "calls": calls, "rdGlobal": rg, "rdHash": rh, "why": why}
+        nodes[key] = {"q": q, "mode": mode, "calls": calls, "rdGlobal": rg, "rdHash": rh, "rdSched": rs, "why": why}
         for c in calls:
             node_of(*c)
         return key
@@ -1103,12 +1190,27 @@ def build(repo):
         n = nodes[k]
         table.append({"id": ids[k], "q": n["q"], "mode": n["mode"],
                       "calls": sorted({ids[(cq, cm) if (cq, cm) in ids else (cq, "S")] for cq, cm in n["calls"]}),
-                      "rdGlobal": n["rdGlobal"], "rdHash": n["rdHash"], "why": n["why"]})
+                      "rdGlobal": n["rdGlobal"], "rdHash": n["rdHash"], "rdSched": n["rdSched"],
+                      "why": n["why"]})
+    # skeletons of the rows entered with a seed (non-trivial ones: at least one sink)
+    skeletons = []
+    for k in order:
+        q, mode = k
+        if mode != "S" or q == "utils:get_rng":
+            continue
+        f = raw[q]
+        sk = f.get("skeleton")
+        if sk is None or rngflow.trivial(sk):
+            continue
+        skeletons.append({"id": ids[k], "q": q, "nvars": sk["nvars"], "attrs": sk["attrs"], "body": sk["body"],
+                          "vars": sk["vars"], "bad": f["bad_sinks"],
+                          "sinks": [{"k": x["k"], "kind": x["kind"], "line": x["line"]} for x in sk["sinks"]]})
     return {"table": table,
             "entries": [{"q": q, "id": ids[k]} for q, k in zip(entries, entry_keys) if in_scope(q)],
             "extras": [{"q": q, "id": ids[k]} for q, k in zip(entries, entry_keys) if not in_scope(q)],
             "get_rng_shape_ok": ex.get_rng_shape_ok(),
             "sharing": sharing_facts(repo),
+            "skeletons": skeletons,
             "opaque_calls": sum(f.get("opaque", 0) for f in raw.values()),
             "reviewed_int_sets": sorted(f"{k[0]} {k[1]}: {v}" for k, v in REVIEWED_INT_SETS.items())}
 
@@ -1130,7 +1232,8 @@ def verdicts(facts):
     t = facts["table"]
     for e in facts["entries"] + facts.get("extras", []):
         r = reach(t, e["id"])
-        bad = [(t[i]["q"], t[i]["mode"], t[i]["why"]) for i in sorted(r) if t[i]["rdGlobal"] or t[i]["rdHash"]]
+        bad = [(t[i]["q"], t[i]["mode"], t[i]["why"]) for i in sorted(r)
+               if t[i]["rdGlobal"] or t[i]["rdHash"] or t[i].get("rdSched")]
         out[e["q"]] = {"clean": not bad, "tainted": bad, "id": e["id"], "reach": len(r),
                        "in_scope": in_scope(e["q"])}
     return out
@@ -1140,7 +1243,8 @@ def to_lean(facts):
     rows = []
     for n in facts["table"]:
         calls = ", ".join(str(c) for c in n["calls"])
-        rows.append(f"  ⟨[{calls}], {str(n['rdGlobal']).lower()}, {str(n['rdHash']).lower()}⟩"
+        rows.append(f"  ⟨[{calls}], {str(n['rdGlobal']).lower()}, {str(n['rdHash']).lower()}, "
+                    f"{str(n.get('rdSched', False)).lower()}⟩"
                     f"  -- {n['id']}: {n['q']} [{n['mode']}]")
     body = ",\n".join(r.split("  --")[0] + ("," if False else "") for r in rows)
     # keep the comments: emit one row per line with a trailing comment
@@ -1156,7 +1260,8 @@ def to_lean(facts):
         "import CotengraVerif.Model.Flow\n\n"
         "namespace Cotengra.FactsC17\nopen Cotengra.Flow\n\n"
         "/-- call graph of the seeded APIs: row i = (callees, draws from the global generator,\n"
-        "    depends on the string-hash order); [S] = entered with a seed, [U] = entered without -/\n"
+        "    depends on the string-hash order, consumes pool results in completion order);\n"
+        "    [S] = entered with a seed, [U] = entered without -/\n"
         "def table : List Facts := [\n" + "\n".join(lines) + "\n]\n\n"
         f"/-- rows of the public callables with a `seed` parameter, entered in mode S -/\n"
         f"def entries : List FnId := [{ents}]\n\n"
@@ -1168,6 +1273,26 @@ def to_lean(facts):
         "def sharingNames : List String := [\n" +
         ",\n".join(f'  "{r["cls"]}.{r["attr"]}"' for r in facts.get("sharing", [])) + "\n]\n\n"
         "end Cotengra.FactsC17\n"
+    )
+
+
+def rng_to_lean(facts):
+    """Generated/FactsC17Rng.lean: the skeletons of the generator-carrying variables"""
+    items = []
+    for sk in facts["skeletons"]:
+        sinks = "; ".join(f"{x['k']}={x['kind']}@{x['line']}" for x in sk["sinks"])
+        items.append(f"  -- row {sk['id']}: {sk['q']}   variables {sk['vars']}   sinks {sinks}\n"
+                     f"  ({sk['id']}, ⟨{sk['nvars']}, [{', '.join(map(str, sk['attrs']))}],\n"
+                     + rngflow.stmt_lean(sk["body"], 4) + "⟩)")
+    return (
+        "-- GENERATED by harness/c17_facts.py + c17_rngflow.py from /repo's AST on every run of `./check C17`. "
+        "Do not edit.\n"
+        "import CotengraVerif.Model.RngFlow\n\n"
+        "namespace Cotengra.FactsC17Rng\nopen Cotengra.RFlow\n\n"
+        "/-- (row of FactsC17.table, skeleton of the function entered with a seed): the assignments to the\n"
+        "    variables that carry the seed / a generator, the control flow around them, and the sinks -/\n"
+        "def skeletons : List (Nat × Skeleton) := [\n" + ",\n".join(items) + "\n]\n\n"
+        "end Cotengra.FactsC17Rng\n"
     )
 
 
